@@ -170,6 +170,7 @@ MUTANTS = [
     ('C18', 'split-new-data-only', (R, LINE, "    lines = LINESEP.split(buffer + s)", "    lines = LINESEP.split(s)"), 'C18.a'),
     ('C18', 'server-carry-not-stored', (R, LINE, "            self.updateBuffer(sock, buffer)\n", ""), 'C18.b'),
     # ---- C19
+    ('C19', 'revert-routing', ('revert', '86bd990'), 'C19.i'),
     ('C19', 'revert-channels', ('revert', '2546822'), 'C19.c'),
     ('C19', 'revert-tail', ('revert', 'd20c985'), 'C19.a'),
     ('C19', 'revert-meta', ('revert', 'eec0d0b'), 'C19.b'),
